@@ -189,6 +189,9 @@ class EnvSpec:
             if abi_impl != "none":
                 if not abi_impl.startswith(python_tag.lower()):
                     return None
+                if abi_impl[len(python_tag) :][:1].isdigit():
+                    # cp31 must not accept the cp310 / cp312t ABIs
+                    return None
                 if (
                     free_threaded is not None
                     and abi_impl.endswith("t") is not free_threaded
